@@ -56,6 +56,7 @@ type Scenario struct {
 	Kind  string `json:"kind"` // seq | storm
 	Steps []Step `json:"steps,omitempty"`
 	Storm *Storm `json:"storm,omitempty"`
+	Flood *Flood `json:"flood,omitempty"`
 }
 
 func childMain() {
@@ -78,6 +79,9 @@ func childMain() {
 	wd := 20
 	if sc.Storm != nil && sc.Storm.WatchdogS > 0 {
 		wd = sc.Storm.WatchdogS
+	}
+	if sc.Flood != nil && sc.Flood.WatchdogS > 0 {
+		wd = sc.Flood.WatchdogS
 	}
 	go func() {
 		time.Sleep(time.Duration(wd) * time.Second)
@@ -104,6 +108,9 @@ func childMain() {
 			runSeq(w, sc.Steps, res)
 		case "storm":
 			runStorm(w, sc.Storm, res)
+		case "flood":
+			runFlood(w, sc.Flood, res)
+			return // runFlood builds the (projected) history itself
 		}
 		w.finish(res)
 	}()
